@@ -953,6 +953,7 @@ func (p *flowProto) runDecode(st *state, line, expect string) (string, string) {
 	st.v["maxlen"] = maxPrev
 	// one decode (allocation measured around Decode alone), then — as the worker does — JSONMarshal of the
 	// decoded message; a panic in either is caught by the run loop (C01)
+	zBefore := zeroLenFields(p.cache(st), usedKeys(addr, dg, flowHdrLen(p.isIPFIX)))
 	measureAlloc = true
 	out := p.decodeReal(st, addr, dg, true)
 	measureAlloc = false
@@ -962,8 +963,8 @@ func (p *flowProto) runDecode(st *state, line, expect string) (string, string) {
 	switch {
 	case out.nrec > len(dg):
 		verdict = fmt.Sprintf("fail:records %d records from %d octets", out.nrec, len(dg))
-	case allocVerdict(ms1.TotalAlloc-ms0.TotalAlloc, len(dg), p.cache(st)) != "":
-		verdict = allocVerdict(ms1.TotalAlloc-ms0.TotalAlloc, len(dg), p.cache(st))
+	case allocVerdict(ms1.TotalAlloc-ms0.TotalAlloc, addr, dg, p.isIPFIX, zBefore, p.cache(st)) != "":
+		verdict = allocVerdict(ms1.TotalAlloc-ms0.TotalAlloc, addr, dg, p.isIPFIX, zBefore, p.cache(st))
 	case (strings.HasPrefix(expect, "K2 ") || strings.HasPrefix(expect, "K3 ")) && len(expect) > 5 && ln != expect[5:]:
 		// Regression names (both defects are repaired; a tagged case is an ordinary case whose expected line is
 		// checked in full, and a mismatch is an ordinary fail: verdict that no known finding matches).
